@@ -184,6 +184,9 @@ def explore(tier, seed, work, exe, cases_override=None):
     return cov, bad_all, byid, sh_bad
 
 
+DISAGREE_SAMPLES = []
+
+
 def key_class(cls):
     p = cls.split(":")
     if p[0] == "arg-of" and len(p) == 3:
@@ -206,6 +209,9 @@ def group_violations(bad_all, byid, sh_bad, work):
     for b in bad_all:
         if (b["id"], b["form"]) in sh_bad or gcc_cache[b["id"]] is False:
             disagree += 1
+            if len(DISAGREE_SAMPLES) < 6 and b["form"] == 1:
+                DISAGREE_SAMPLES.append({"arguments": b["arguments"], "spec_expects": b["expected"],
+                                         "gcc": compiledb.gcc_options(["w.c" if a == compiledb.FILEWORD else a for a in b["arguments"]], os.path.join(work, "gccw"))})
             continue
         kept.append(b)
     single_bad = set(key_class(b["classes"][0]) for b in kept if len(b["classes"]) == 1)
@@ -262,7 +268,7 @@ def main(tier, seed, replay=None):
         "exhaustive_strata": "all single option elements and all well-formed pairs of the element catalogue of CompileDb.tla; triples sampled by seed",
         "samples": samples,
         "detail": cov,
-        "model_disagreement": disagree,
+        "model_disagreement": disagree, "model_disagreement_samples": DISAGREE_SAMPLES,
         "sh_witness_disagreements": len(sh_bad),
         "deviation_groups": {v["key"]: v["what"][:160] for v in violations},
     }
